@@ -254,12 +254,15 @@ func (c *connectClient) NewConn(
 		header.Del(connectHeaderTimeout)
 		if deadline, ok := ctx.Deadline(); ok {
 			millis := int64(time.Until(deadline) / time.Millisecond)
-			if millis > 0 {
-				encoded := strconv.FormatInt(millis, 10 /* base */)
-				if len(encoded) <= 10 {
-					header[connectHeaderTimeout] = []string{encoded}
-				} // else effectively unbounded
+			if millis < 0 {
+				millis = 0
 			}
+			// (Less than a millisecond left is still a deadline: "0", never no
+			// timeout at all.)
+			encoded := strconv.FormatInt(millis, 10 /* base */)
+			if len(encoded) <= 10 {
+				header[connectHeaderTimeout] = []string{encoded}
+			} // else effectively unbounded
 		}
 	}
 	setTimeout()
